@@ -11,7 +11,7 @@ import (
 func init() {
 	register(&Property{
 		ID:          "C01",
-		Explanation: "Decides one clause of C01 that is a shape of the code: 'with the ASCII charset every non-ASCII character of an identifier, string or template is escaped'. R1 ascii-sink: every text that reaches the JS printer's output buffer (p.print / p.printBytes / appends to p.js) is a compile-time constant, comes from an ASCII-by-construction source (operator table, keyword tables, number formatting, lexer-validated digits), is printed under a dominating `!ASCIIOnly` test, goes through one of the escapers, or is one of the documented exceptions (regular-expression bodies, comments, preserved JSX) — anything else is a violation; R2 inside the escapers, UTF-8 encoding of a rune is reachable only through an edge on which ASCIIOnly is false or the rune is known to be ASCII. R3 escape-denotation decides two structural parts of 'every string literal denotes the same value': each constant escape sequence appended in `case K:` of the string escapers (js_printer printUnquotedUTF16, helpers internalQuote) denotes K under the ECMAScript escape grammar, and on the SSA control-flow graph of the NUL case the short form \\0 is unreachable whenever a next code unit exists and is one of '0'..'9' (\\0 followed by a digit is a legacy octal escape). The tagged-template raw text (ETemplate.HeadRaw / TemplatePart.TailRaw) is printed verbatim and is a known finding. R5 indirect-call-target: the bare print of a call target / template tag is reachable only across the originally-a-property-access edge or the not-a-property-access edge (plain calls, optional calls, tagged templates). R6 operator-gluing-unconditional: no condition of printSpaceBeforeOperator, and no condition of the space printed between a preceding `/` and a regular-expression literal, depends on an output option. R7 line-terminator-set-complete: every store of true to Lexer.HasNewlineBefore is entered from tests for LF, CR, U+2028 and U+2029, and every case clause of js_lexer listing CR and LF lists the other two. R8 escaped-identifier-end-is-guarded: every non-identifier byte an escape format of the identifier printers can end with is compared with the last output byte by printSpaceBeforeIdentifier (directly or through a marker every printIdentifier* method sets). R9 dot-after-expression-guarded: the C13/R11 analysis. NOT covered: everything else in C01 — observable equivalence, parenthesisation, ASI hazards, number and string value round trips.",
+		Explanation: "Decides one clause of C01 that is a shape of the code: 'with the ASCII charset every non-ASCII character of an identifier, string or template is escaped'. R1 ascii-sink: every text that reaches the JS printer's output buffer (p.print / p.printBytes / appends to p.js) is a compile-time constant, comes from an ASCII-by-construction source (operator table, keyword tables, number formatting, lexer-validated digits), is printed under a dominating `!ASCIIOnly` test, goes through one of the escapers, or is one of the documented exceptions (regular-expression bodies, comments, preserved JSX) — anything else is a violation; R2 inside the escapers, UTF-8 encoding of a rune is reachable only through an edge on which ASCIIOnly is false or the rune is known to be ASCII. R3 escape-denotation decides two structural parts of 'every string literal denotes the same value': each constant escape sequence appended in `case K:` of the string escapers (js_printer printUnquotedUTF16, helpers internalQuote) denotes K under the ECMAScript escape grammar, and on the SSA control-flow graph of the NUL case the short form \\0 is unreachable whenever a next code unit exists and is one of '0'..'9' (\\0 followed by a digit is a legacy octal escape). The tagged-template raw text (ETemplate.HeadRaw / TemplatePart.TailRaw) is printed verbatim and is a known finding. R5 indirect-call-target: the bare print of a call target / template tag is reachable only across the originally-a-property-access edge or the not-a-property-access edge (plain calls, optional calls, tagged templates). R6 operator-gluing-unconditional: no condition of printSpaceBeforeOperator, and no condition of the space printed between a preceding `/` and a regular-expression literal, depends on an output option. R7 line-terminator-set-complete: every store of true to Lexer.HasNewlineBefore is entered from tests for LF, CR, U+2028 and U+2029, and every case clause of js_lexer listing CR and LF lists the other two. R8 escaped-identifier-end-is-guarded: every non-identifier byte an escape format of the identifier printers can end with is compared with the last output byte by printSpaceBeforeIdentifier (directly or through a marker every printIdentifier* method sets). R9 dot-after-expression-guarded: the C13/R11 analysis. R10 date-argument-purity-table: finite-domain evaluation of the guards of the Date case over the PrimitiveType enum. NOT covered: everything else in C01 — observable equivalence, parenthesisation, ASI hazards, number and string value round trips.",
 		Run: func(p *Prog, tier string) []*RuleResult {
 			return []*RuleResult{c01AsciiSink(p), c01EscaperBodies(p), c01EscapeDenotation(p), c01LiteralEquality(p), c01IndirectTarget(p), c01OperatorHazardsUnconditional(p), c01LineTerminators(p), escapedIdentifierEndGuarded(p, "C01/R8 escaped-identifier-end-is-guarded"), dotAfterExpressionGuarded(p, "C01/R9 dot-after-expression-guarded"), dateArgumentPurity(p, "C01/R10 date-argument-purity-table")}
 		},
